@@ -15,6 +15,7 @@ fn gen_base(c: &mut Case) -> Option<(crate::gen::GModule, Vec<u8>, dm::Dec)> {
     profile.gc = profile.gc && c.t.bool();
     let mut cfg = steer_cfg(c, Kind::Static, profile);
     cfg.max_funcs = 3;
+    cfg.min_funcs = 1;
     cfg.max_stmts = 5;
     let m = gen_module(&mut c.t, &cfg);
     let bytes = m.encode();
@@ -203,7 +204,16 @@ impl Driver for BlockAlt {
         }
     }
     fn run(&self, c: &mut Case) -> Outcome {
-        let Some((_gm, bytes, din)) = gen_base(c) else { return Outcome::Discard("generator produced an invalid module") };
+        let mut base = None;
+        for _ in 0..4 {
+            let Some(b) = gen_base(c) else { return Outcome::Discard("generator produced an invalid module") };
+            let has = local_funcs(&b.2).iter().any(|f| b.2.funcs[*f as usize].ops.iter().any(|o| matches!(dm::op_name(o), "Block" | "Loop" | "If")));
+            base = Some(b);
+            if has {
+                break;
+            }
+        }
+        let (_gm, bytes, din) = base.unwrap();
         let lf = local_funcs(&din);
         // candidate constructs
         let mut cands: Vec<(u32, usize, usize, bool, bool)> = vec![]; // (func, open/else idx, end idx, is_else, has nested)
